@@ -70,7 +70,11 @@ func (r *vfC02SampledRun) mismatch(step int, class, what string, exp, got any) {
 func (r *vfC02SampledRun) run() {
 	defer func() {
 		if p := recover(); p != nil {
-			r.mismatch(len(r.log), "sampled-panic", fmt.Sprintf("panic in the channel code: %v", p), "no panic", fmt.Sprint(p))
+			if what, ok := vfc02.CodePanic(p); ok {
+				r.mismatch(len(r.log), "sampled-panic", what, "no panic", what)
+				return
+			}
+			r.mismatch(len(r.log), "MACHINERY", fmt.Sprintf("panic in the harness: %v", p), nil, nil)
 		}
 	}()
 	remote, local := vfc02.NewPair(nil)
@@ -116,7 +120,10 @@ func (r *vfC02SampledRun) run() {
 			wire.SetCap(op.I("k"))
 			r.log = append(r.log, map[string]any{"op": "short", "k": op.I("k")})
 		case "peek":
-			peeked, c, err := newWrappedSampledConn(fake)
+			var peeked PeekedBytes
+			var c *wrappedSampledConn
+			var err error
+			vfc02.Guard("newWrappedSampledConn", func() { peeked, c, err = newWrappedSampledConn(fake) })
 			r.log = append(r.log, map[string]any{"op": "peek", "ok": err == nil, "peeked": fmt.Sprintf("%x", peeked[:]), "err": fmt.Sprint(err)})
 			r.res.Case(fmt.Sprintf("peek/%v/%d", op.B("ok"), op.I("got")))
 			if op.B("ok") != (err == nil) {
@@ -185,7 +192,9 @@ func (r *vfC02SampledRun) run() {
 			if cap(buf) < b {
 				buf = make([]byte, b+4096)
 			}
-			n, err := sc.Read(buf[:b])
+			var n int
+			var err error
+			vfc02.Guard("wrappedSampledConn.Read", func() { n, err = sc.Read(buf[:b]) })
 			r.log = append(r.log, map[string]any{"op": "read", "from": from, "rel": rel, "real": b, "avail": avail, "n": n, "err": fmt.Sprint(err)})
 			r.res.Case(fmt.Sprintf("read/%s/%s/%v", from, rel, op.B("eof")))
 			if errors.Is(err, vfc02.ErrDry) {
@@ -215,7 +224,9 @@ func (r *vfC02SampledRun) run() {
 			buf = make([]byte, 1<<17)
 		}
 		for it := 0; it < 64 && led.Delivered < led.Written; it++ {
-			n, err := sc.Read(buf[:1<<17])
+			var n int
+			var err error
+			vfc02.Guard("wrappedSampledConn.Read", func() { n, err = sc.Read(buf[:1<<17]) })
 			r.log = append(r.log, map[string]any{"op": "drain", "n": n, "err": fmt.Sprint(err)})
 			if errors.Is(err, vfc02.ErrDry) {
 				break
